@@ -5,7 +5,11 @@
    Reading guide
      GuardedBy l   every access outside constructors holds lock l (writers exclusively)
      SyncTyped     sync.Mutex/RWMutex/Once/WaitGroup/Map, atomic.Pointer held BY VALUE: only ever
-                   used through its own methods; never re-assigned after construction
+                   used through its own methods; never re-assigned after construction.
+                   LIMIT: this takes the methods to be safe for arbitrary concurrent use.  That is
+                   not the whole contract of sync.WaitGroup ("Add from zero must happen before
+                   Wait"): the dynamic leg found exactly such a race on PIDZero.wg
+                   (known finding race:sync-contract:supervisor.PIDZero.Shutdown$go1)
      CtorOnly      assigned only in New*/With* (before the value is shared), then read-only.
                    Channels, contexts, loggers, function values, *lifecycle.StartStop, the fsm
                    are all references that are set once; what they point to is synchronised by
@@ -43,6 +47,10 @@ Definition pol_pidzero : policy := [
   P "supervisor.PIDZero" "stateMap" SyncTyped;
   P "supervisor.PIDZero" "stateSubscribers" SyncTyped;
   P "supervisor.PIDZero" "subscriberMutex" SyncTyped
+  (* when hooks/fix-c17c-supervisor-launch-gate.patch (or an equivalent repair of the wg.Go / wg.Wait
+     race) lands, add:
+       P "supervisor.PIDZero" "launchMu" SyncTyped;
+       P "supervisor.PIDZero" "launchClosed" (GuardedBy "supervisor.PIDZero.launchMu")           *)
 ].
 
 (* --- lifecycle.StartStop: four plain fields, all under mu (Started re-makes the channels
